@@ -139,4 +139,13 @@ theorem merge_of_tree (n c : Nat) (g hg : G L D) (r : R L D) (hrel : RelAt n c g
       (∀ p ch, t.walk p = some ch → ∃ u, walk (proj r') left p = some u ∧ (ch.id, u) ∈ m') :=
   MT.merge_of_tree n c g hg r hrel t hrep hnd hlab hkeys left hl hc hv
 
+/-- **the model of `merge()` in full** (`mergeX`, Core/MergeHoles.lean: `join` performed, not avoided) **is `merge` on
+    trees**: whenever `merge` returns `Ok` and the right graph's edges lead below its capacity (every reachable graph),
+    `mergeX` returns `Ok` with the same left graph and no slot removed — so `merge_of_tree` and everything above is a
+    statement about the code path with `join` in it -/
+theorem merge_in_full_is_merge (g hg g' : G L D) (left right : Nat) (htgt : ∀ u, ∀ e ∈ edg hg u, e.2 < cap hg)
+    (hm : merge g hg left right = some (g', .ok)) :
+    mergeX ⟨g, []⟩ ⟨hg, []⟩ left right = (⟨g', []⟩, some .ok) :=
+  mergeX_of_mergeT hg htgt g g' left right .ok .ok (mergeT_of_merge g hg g' left right .ok hm) rfl
+
 end Props.C11
